@@ -520,9 +520,11 @@ def validate_rejects_short_index(crate, wide=False):
     res.paths = len(outs)
     need = leaves + hv["records_count"] * hv["record_header_size"]
     if wide:
-        # no bound on the header values: the expected length is computed in 192 bits (a corrupted header may hold anything)
-        W = 192
-        need_w = z3.ZeroExt(W - 64, leaves) + z3.ZeroExt(W - 64, hv["records_count"]) * z3.ZeroExt(W - 64, hv["record_header_size"])
+        # no bound on the header values: the expected length is computed in 128(+1) bits (a corrupted header may hold anything)
+        W = 129
+        # the same double-width product term the checked_mul summary builds (operands in the code's order), one more bit for the sum
+        prod = z3.ZeroExt(64, hv["records_count"]) * z3.ZeroExt(64, hv["record_header_size"])
+        need_w = z3.ZeroExt(W - 64, leaves) + z3.ZeroExt(1, prod)
     for o in outs:
         if o.status in ("infeasible", "unwind"):
             continue
